@@ -36,6 +36,7 @@ FINDINGS = [
  ('F9', 'C06.K2', 'records k1 (100 B), k2 (5000 B); remove index; cut the last 5000 bytes (header+meta remain); reopen; write k3; close; remove index; reopen ⇒ k3 NotFound, corrupted = 0', '8308439', 'extent check in the scan ⇒ quarantine-class error'),
  ('F10', 'C03.I5, C06.K7, C11.F6', 'closed blob t.0 with 3 keys; truncate `t.0.index` by 10 bytes (header intact); reopen ⇒ stored keys read NotFound', 'f68f230', 'compare the file size with the extent implied by the header in `validate`'),
  ('F13', 'C13.L11', 'closed blobs 0,1; an explicit dump task is held at blob 1 (dump semaphore); `delete(k)` in closed blob 0 requests a deferred dump; it becomes due while the task is busy ⇒ the event is registered again but `next_deadline` stays None: the requested index dump of blob 0 never runs (`docs/probes/probe_f13.rs`, found while triaging seed C13r3-b)', '3f851bc', 'arm the deadline when the event is postponed'),
+ ('F14', 'C11.F9, C08.D6', 'session 1: write k0..k2, close; session 2 (blob 0 re-opened as the active blob): one 6000-byte write fails half-way (RLIMIT_FSIZE, EFBIG); limit restored; write k200..k204 ⇒ Ok; `read(k200)` ⇒ Err: `IoDriver::open` used `append(true)`, so `pwrite` ignored the reserved offset and every later record of that blob lies before the offset its index entry records (`docs/probes/probe_f14.rs`; pointed out by the sub-agent of seed C11r5, exploited by seeds C05r5-b and C08r5-a)', '067f913', 're-opened files are opened for positional writing like fresh ones'),
  ('F12', 'C06.K5', '`ignore_corrupted()`, the only blob cut to 50 bytes, no index ⇒ `init()` = Err(Uninitialized) (without the flag: Ok)', '4056f8e', 'create a fresh blob whenever none could be opened'),
 ]
 
